@@ -5,6 +5,8 @@ package main
 import (
 	"fmt"
 	"strings"
+
+	"golang.org/x/tools/go/ssa"
 )
 
 func (w *World) lemmaIndex(name string) int {
@@ -61,7 +63,10 @@ func (w *World) LemmaObligation(lem *Lemma) (o *Obligation, err error) {
 	}()
 	idx := w.lemmaIndex(lem.Name)
 	args, model := w.lemmaParamVals(lem, "")
-	ev := &Env{W: w, st: &State{heaps: map[string]*Term{}}, bound: map[string]SVal{}}
+	lst := &State{heaps: map[string]*Term{}, globals: map[*ssa.Global]Value{}, cells: map[*ssa.Alloc]Value{}, regs: map[ssa.Value]Value{}}
+	cc := &contractCalls{memo: map[string]SVal{}, used: map[string]bool{}}
+	ev := &Env{W: w, st: lst, bound: map[string]SVal{}, cc: cc}
+	w.initPhase = false
 	for i, p := range lem.Params {
 		ev.bound[p.Name] = args[i]
 	}
@@ -182,6 +187,13 @@ func (w *World) LemmaObligation(lem *Lemma) (o *Obligation, err error) {
 		default:
 			sfail("unknown lemma clause %q", c.Kind)
 		}
+	}
+	// real functions mentioned through their contracts
+	hyps = append(hyps, lst.hyps...)
+	hyps = append(hyps, cc.hyps...)
+	ens = append(append([]*Term(nil), cc.goals...), ens...)
+	for f := range cc.used {
+		w.noteLemmaUse("lemma:"+lem.Name, "contract:"+f)
 	}
 	o = &Obligation{
 		Name: "lemma/" + lem.Name, Func: "lemma:" + lem.Name, Kind: "lemma", Text: lem.Name,
